@@ -508,6 +508,67 @@ def h_script_timeout(prog, n_max):
     return h
 
 
+def h_script_sections(prog):
+    """BashScriptExecutor::execute_all hands every test case exactly the bytes of its section of what the script's process returned — the process
+    runner has already applied the documented transformations; the executor applies none of its own"""
+    from mir_exec import MapBuf, Opaque, Slice, StringBuf, VecBuf, find_method, mk_struct, new_ref
+    from mir_models import ok, as_items
+    from props.c13 import divider
+    base = h_script_skip(prog, 1)
+    SECTIONS = [b"a\r\n", b"\x1b[1mb\x1b[0m\r\r\n", b"c"]         # what the runner returned for the three test cases (CR LF, ANSI, no final newline)
+
+    class SectionModels(base.models_cls):
+        @staticmethod
+        def _run(ctx, args):
+            out = b""
+            for i, sec in enumerate(SECTIONS[:ctx.notes["n"]]):
+                out += sec + (b"" if sec.endswith(b"\n") else b"\n") + divider(b"SALT", i, 0)
+            return ok(mk_struct("Output", stderr=Agg("OutputStream", None, [VecBuf([], "u8")]),
+                                stdout=Agg("OutputStream", None, [VecBuf([SInt(b, "u8") for b in out], "u8")]), exit_code=Agg("ExitStatus", "Code", [mk_int(0, "i32")])))
+
+        def __init__(self):
+            super().__init__()
+            for n in [n for n in prog.funcs if "subprocess_runner.rs" in n and n.endswith("::run")]:
+                self.overrides[n] = lambda ctx, fname, args: SectionModels._run(ctx, args)
+
+    def mk(n, keep, ansi):
+        def setup(ctx):
+            ctx.notes.update(n=n)
+            ob = lambda v: none() if v is None else some(SBool(v))
+            tcs = []
+            for i in range(n):
+                cfg = mk_struct("TestCaseConfig", detached=none(), environment=MapBuf([]), keep_crlf=ob(keep), output_stream=some(Agg("OutputStreamControl", "Combined", [])),
+                                skip_document_code=none(), strip_ansi_escaping=ob(ansi), timeout=none(), wait=none())
+                tcs.append(mk_struct("TestCase", title=StringBuf([]), shell_expression=StringBuf([SInt(ord(c), "char") for c in "cmd%d" % i]),
+                                     expectations=VecBuf([]), exit_code=none(), line_number=mk_int(i + 1, "usize"), config=cfg))
+            dflt = mk_struct("TestCaseConfig", detached=none(), environment=MapBuf([]), keep_crlf=none(), output_stream=none(), skip_document_code=none(),
+                             strip_ansi_escaping=none(), timeout=none(), wait=none())
+            doc = mk_struct("DocumentConfig", append=VecBuf([]), defaults=dflt, prepend=VecBuf([]), shell=none(), total_timeout=none())
+            cx = mk_struct("Context", work_directory=Opaque("work"), temp_directory=Opaque("tmp"), file=Opaque("file"), config=doc)
+            return [tcs, cx]
+        return setup
+
+    def post(ctx, args, kind, value):
+        if kind != "return" or value.variant != "Ok":
+            return False
+        outs = as_items(value.fields[0])
+        if len(outs) != ctx.notes["n"]:
+            return False
+        for o, sec in zip(outs, SECTIONS):
+            got = [b.v if b.concrete else None for b in as_items(field_of(o, "stdout").fields[0])]
+            want = list(sec + (b"" if sec.endswith(b"\n") else b"\n"))
+            if got != want and got != list(sec):
+                return False
+        return True
+    inputs = [("%d test case(s), keep_crlf=%s strip_ansi_escaping=%s" % (n, k, a_), mk(n, k, a_)) for n in (1, 2, 3) for k in (None, False, True) for a_ in (None, True)]
+    h = e2.Harness("script_executor_sections_verbatim", base.func, inputs, post, native=None, judge=None,
+                   describe="single-script executor: every test case gets exactly the bytes of its section of the script's (already rendered) output — CR, ANSI "
+                            "sequences and all; the executor transforms nothing a second time",
+                   bound="1..3 test cases with the sections %s; keep_crlf unset / false / true × strip_ansi_escaping unset / true" % [bytes(x) for x in SECTIONS])
+    h.models_cls = SectionModels
+    return h
+
+
 def replay_script_timeout(rep, h, res):
     """end to end: the real single-script executor with a short / zero / long document limit on real sleeps"""
     for model, r in res.raw_witnesses[:2]:
